@@ -61,6 +61,10 @@ func init() {
 	pt.stream = 160 // short stream, replayed often: n-grams recur at shifted positions
 	pt.badCfgPct = 0
 	suites["p-reset"] = pSuite(pt, []string{"p.twin.fresh"})
+	suites["p-bigbuf"] = func(r *rng, id string, cnt counters, emit func(line, out string)) ([]finding, bool) {
+		e := genPBig(r, id, cnt, emit)
+		return e.finds, true
+	}
 	// suffix-array parsers with buffers of several bitset words (> 128 bytes): stale words of the
 	// bitset, a suffix array kept over Reset, edges kept over Reset only show with larger fills
 	psa := pt.withKinds("GSAP", "OSAP", "GSAP")
